@@ -18,7 +18,9 @@ def check_claims_unit(rep, ctx):
         return
     f = {n: ctx.field("AuditEntry", n) for n in ("logon_id", "process_id", "is_admin")}
     c = {n: ctx.field("Claims", n) for n in ("userId", "processId", "runAsElevated", "userName", "processFullPath", "processCmdLine", "processName", "clientIp", "clientPort")}
-    eng = ctx.engine(loop_bound=1)
+    acc = [(r"AuditEntry::%s$" % p_.split("::")[-1], p_) for p_ in ctx.idx.files if re.search(r"redirector::<impl[^>]*>::\w+$", p_) and p_.split("::")[-1] in ("is_admin", "is_elevated", "is_root", "elevated")]
+    eng = ctx.engine(loop_bound=1, inline=acc)
+    eng.auto_inline = ctx.new_function_auto()           # an accessor introduced for the elevation bit is looked into, not taken on trust
     n = 0
     for i, r in enumerate(eng.explore(w)):
         if not (r.status == "return" and isinstance(r.ret, Agg) and r.ret.variant == "Ok"):
@@ -35,10 +37,11 @@ def check_claims_unit(rep, ctx):
         ok_el = isinstance(el, Scalar)
         if ok_el:
             av = adm.scalar("i32")
-            # the eBPF program writes 0 or 1 (C06): any spelling that agrees with `== 1` on those two values is the same claim
-            rs, _m, _dt, _zm = check_sat(r.pc + [z3.Or(av == 0, av == 1), el.e != (av == z3.BitVecVal(1, 32))])
+            # every value of the word: the Linux program writes 0 or 1, the Windows program (ebpf/redirect.bpf.c) leaves the negative error
+            # code of a failed admin lookup in the record - anything but 1 is "not elevated" (fail closed)
+            rs, _m, _dt, _zm = check_sat(r.pc + [el.e != (av == z3.BitVecVal(1, 32))])
             ok_el = rs == "unsat"
-        rep.add(Query("from_audit_entry path %d: runAsElevated <=> the record's is_admin is 1 (for the values 0 / 1 the kernel writes)" % i, "holds" if ok_el else "violated", repr(el)[:80], 0, "mirsym+z3", key="C07.claims-unit.elevated", reproduced=None))
+        rep.add(Query("from_audit_entry path %d: runAsElevated <=> the record's is_admin is exactly 1 (all 2^32 values; a failed lookup leaves a negative value on Windows)" % i, "holds" if ok_el else "violated", repr(el)[:80], 0, "mirsym+z3", key="C07.claims-unit.elevated", reproduced=None))
         gu = [e for e in r.events if e.kind == "await" and e.callee.endswith("get_user")]
         fp = [e for e in r.events if e.kind == "call" and e.callee.endswith("from_pid")]
         ok_id = same_origin(cl.fields[c["userId"]], entry.child(("f", f["logon_id"]))) and len(gu) == 1 and same_origin(gu[0].rargs[0], entry.child(("f", f["logon_id"]))) and \
